@@ -16,6 +16,8 @@ impl PackageName {
   pub fn starts_with(&self, _p: &str) -> bool { unimplemented!() }
 }
 impl Clone for PackageName { fn clone(&self) -> Self { unimplemented!() } }
+impl std::borrow::Borrow<str> for PackageName { fn borrow(&self) -> &str { unimplemented!() } }
+impl std::ops::Deref for PackageName { type Target = str; fn deref(&self) -> &str { unimplemented!() } }
 pub mod chrono {
   #[derive(Clone, Copy)]
   pub struct Utc;
